@@ -29,11 +29,16 @@ def table():
             i = need.lower().find("need")
             need = need[i:i + 230] if i >= 0 else need[:230]
             ok = meta.get("confirmed", {}).get("ok")
+            if meta.get("neutralised_by_fix"):
+                out.append(f"| `{r['seeded']}` | {r['property']} | n/a | harmless on the repaired tree: {meta['neutralised_by_fix']} | {need.replace('|', '/')} |")
+                continue
             out.append(f"| `{r['seeded']}`{'' if ok else ' (unconfirmed)'} | {r['property']} | {'yes' if r.get('caught') else 'NO'} | "
                        f"{', '.join('`'+k+'`' for k in r.get('keys', [])[:3])} | {need.replace('|', '/')} |")
-        n = len(rs)
-        c = sum(1 for r in rs if r.get("caught"))
-        out.append(f"\n{c} of {n} seeded changes are caught by the quick tier of their property's check.")
+        neutral = {r["seeded"] for r in rs if json.loads((VERIF / "seeded" / r["seeded"] / "meta.json").read_text()).get("neutralised_by_fix")}
+        n = len(rs) - len(neutral)
+        c = sum(1 for r in rs if r.get("caught") and r["seeded"] not in neutral)
+        out.append(f"\n{c} of {n} seeded changes are caught by the quick tier of their property's check"
+                   + (f" ({len(neutral)} more no longer break their property on the repaired tree: a later `fix:` commit removed the condition they relied on)." if neutral else "."))
     return "\n".join(out)
 
 
